@@ -337,7 +337,7 @@ gens:
 				same = false
 			}
 		}
-		if same {
+		if same && len(keys[0]) > 0 { // StackTrie does not accept the empty key
 			emitted := map[string][]byte{}
 			st := trie.NewStackTrie(func(path []byte, hash common.Hash, blob []byte) {
 				emitted[string(path)] = common.CopyBytes(blob)
